@@ -504,11 +504,16 @@ func typedPayload(typ string, t *sim.Tape, rnd *sim.Rand) []byte {
 	}
 	vf := func(ver int, flags uint32) { u32(uint32(ver)<<24 | flags) }
 	cnt := t.Draw(4)
+	// the count field usually says cnt; sometimes it claims far more entries than the box holds
+	claimed := uint32(cnt)
+	if t.Chance(50) {
+		claimed = []uint32{0x7fffffff, 0xffffffff, 0x40000000, 0x01000000, 3000000}[t.Draw(5)]
+	}
 	switch typ {
 	case "trun":
 		fl := subset(0x1, 0x4, 0x100, 0x200, 0x400, 0x800)
 		vf(t.Draw(2), fl)
-		u32(uint32(cnt))
+		u32(claimed)
 		if fl&0x1 != 0 {
 			u32(val())
 		}
@@ -543,7 +548,7 @@ func typedPayload(typ string, t *sim.Tape, rnd *sim.Rand) []byte {
 		}
 		def := t.Draw(3) * 8
 		u8(def)
-		u32(uint32(cnt))
+		u32(claimed)
 		if def == 0 {
 			for i := 0; i < cnt; i++ {
 				u8(t.Draw(256))
@@ -557,7 +562,7 @@ func typedPayload(typ string, t *sim.Tape, rnd *sim.Rand) []byte {
 			u32(val())
 			u32(val())
 		}
-		u32(uint32(cnt))
+		u32(claimed)
 		for i := 0; i < cnt; i++ {
 			if ver == 0 {
 				u32(val())
@@ -572,15 +577,52 @@ func typedPayload(typ string, t *sim.Tape, rnd *sim.Rand) []byte {
 		if ver == 1 {
 			u32(val())
 		}
-		u32(uint32(cnt))
+		u32(claimed)
 		for i := 0; i < cnt; i++ {
 			u32(val())
 			u32(val())
 		}
+	case "sgpd":
+		ver := t.Draw(3)
+		vf(ver, 0)
+		gt := []string{"roll", "rap ", "alst", "seig", "zzzz"}[t.Draw(5)]
+		p = append(p, gt...)
+		nat := map[string]int{"roll": 2, "rap ": 1, "alst": 4, "seig": 20, "zzzz": 1 + t.Draw(7)}[gt]
+		dl := nat
+		if t.Chance(300) {
+			dl = 0
+		}
+		if ver >= 1 {
+			u32(uint32(dl))
+		}
+		if ver >= 2 {
+			u32(uint32(t.Draw(3)))
+		}
+		u32(claimed)
+		for i := 0; i < cnt; i++ {
+			if ver >= 1 && dl == 0 {
+				u32(uint32(nat))
+			}
+			for j := 0; j < nat; j++ {
+				u8(t.Draw(4))
+			}
+		}
+	case "ssix":
+		vf(0, 0)
+		u32(claimed)
+		for i := 0; i < cnt; i++ {
+			rc := t.Draw(4)
+			u32(uint32(rc))
+			for j := 0; j < rc; j++ {
+				u8(t.Draw(4))
+				u8(0)
+				u16(t.Draw(65536))
+			}
+		}
 	case "subs":
 		ver := t.Draw(2)
 		vf(ver, subset(0x1, 0x2))
-		u32(uint32(cnt))
+		u32(claimed)
 		for i := 0; i < cnt; i++ {
 			u32(val())
 			sc := t.Draw(3)
@@ -602,7 +644,7 @@ func typedPayload(typ string, t *sim.Tape, rnd *sim.Rand) []byte {
 			ver = t.Draw(2)
 		}
 		vf(ver, 0)
-		u32(uint32(cnt))
+		u32(claimed)
 		per := map[string]int{"ctts": 2, "stts": 2, "stsc": 3, "stss": 1, "stco": 1, "co64": 2}[typ]
 		for i := 0; i < cnt*per; i++ {
 			u32(val())
@@ -614,7 +656,7 @@ func typedPayload(typ string, t *sim.Tape, rnd *sim.Rand) []byte {
 		if sz != 0 {
 			u32(val()) // uniform size: no table follows, so any sample count is "consistent" with the box size
 		} else {
-			u32(uint32(cnt))
+			u32(claimed)
 			for i := 0; i < cnt; i++ {
 				u32(val())
 			}
@@ -700,7 +742,7 @@ func typedPayload(typ string, t *sim.Tape, rnd *sim.Rand) []byte {
 	case "elst":
 		ver := t.Draw(2)
 		vf(ver, 0)
-		u32(uint32(cnt))
+		u32(claimed)
 		for i := 0; i < cnt; i++ {
 			if ver == 1 {
 				u64(uint64(val()))
@@ -737,7 +779,7 @@ func typedPayload(typ string, t *sim.Tape, rnd *sim.Rand) []byte {
 		u32(1)
 		l := t.Draw(64)
 		u32(uint32(l))
-		u32(uint32(cnt))
+		u32(claimed)
 		for i := 0; i < cnt; i++ {
 			if ver == 1 {
 				u64(uint64(val()))
